@@ -155,5 +155,29 @@ def test_removal_reference():
     both[m2] -= pk2[m2]
     assert pf.removal_faults(x, y, both, [('gaussian', popt, 2.5, 7.5), ('lorentzian', popt2, 6.0, 9.0)]) == []
     closed = both.copy()
-    closed[9] -= pk2[9]  # treating the upper bound as included is tolerated
-    assert pf.removal_faults(x, y, closed, [('gaussian', popt, 2.5, 7.5), ('lorentzian', popt2, 6.0, 9.0)]) == []
+    closed[9] -= pk2[9]  # x = 9.0 is the upper bound of [6, 9): it is outside, touching it is a fault
+    assert [k for k, _ in pf.removal_faults(x, y, closed, [('gaussian', popt, 2.5, 7.5), ('lorentzian', popt2, 6.0, 9.0)])] == ['changed_on_upper_bound']
+    # the lower bound belongs to the window: x = 6.0 must have the second peak removed
+    lower_open = both.copy()
+    lower_open[6] += pk2[6]
+    assert [k for k, _ in pf.removal_faults(x, y, lower_open, [('gaussian', popt, 2.5, 7.5), ('lorentzian', popt2, 6.0, 9.0)])] == ['not_input_minus_peak']
+    # adjacent windows sharing the edge 5.0: the shared point belongs to the upper window only
+    a = ('gaussian', popt, 2.0, 5.0)
+    b = ('lorentzian', popt2, 5.0, 8.0)
+    adj = y.copy()
+    ma, mb = pf.in_window(x, 2.0, 5.0), pf.in_window(x, 5.0, 8.0)
+    assert not ma[5] and mb[5]
+    adj[ma] -= pk[ma]
+    adj[mb] -= pk2[mb]
+    assert pf.removal_faults(x, y, adj, [a, b]) == []
+    twice = adj.copy()
+    twice[5] -= pk[5]  # both peaks taken off the shared point
+    assert [k for k, _ in pf.removal_faults(x, y, twice, [a, b])] == ['not_input_minus_peak']
+    # window ending exactly at the last data point: that point stays
+    last = y.copy()
+    ml = pf.in_window(x, 7.0, 10.0)
+    assert not ml[10]
+    last[ml] -= pk2[ml]
+    assert pf.removal_faults(x, y, last, [('lorentzian', popt2, 7.0, 10.0)]) == []
+    last[10] -= pk2[10]
+    assert [k for k, _ in pf.removal_faults(x, y, last, [('lorentzian', popt2, 7.0, 10.0)])] == ['changed_on_upper_bound']
